@@ -26,6 +26,7 @@ type harnessSummary struct {
 func buildTool(c *Ctx, pkg, name string, race bool) (string, error) {
 	bin := filepath.Join(c.Scratch, name)
 	args := []string{"build", "-tags", "verif"}
+	args = append(args, modArgs(c.Root, c.Scratch)...)
 	if race {
 		args = append(args, "-race")
 	}
